@@ -4,7 +4,7 @@ SHELL := /bin/bash
 COQ_TIMEOUT ?= 1800
 J ?= 12
 
-.PHONY: setup all gen coq extract driver clean prectable onlinegen offlinegen offlinegen-check offlinegen-mutants coqchk static
+.PHONY: setup all gen coq extract driver clean prectable onlinegen offlinegen offlinegen-check offlinegen-mutants denseonlinegen denseonlinegen-check denseonlinegen-mutants coqchk static
 
 # `make all` never stops at the first failure: a source file of nickovic/rtamt that a translator refuses, or a proof that no longer
 # checks against the regenerated text, must break the obligations of the properties that depend on it and of no other property.
@@ -18,7 +18,7 @@ all:
 	@($(MAKE) coq > build/status/coq.log 2>&1 && echo ok > build/status/coq) || (tail -40 build/status/coq.log > build/status/coq; true)
 	@($(MAKE) driver > build/status/driver.log 2>&1 && echo ok > build/status/driver) || (tail -40 build/status/driver.log > build/status/driver; true)
 	@grep -v "^COQC\|^COQDEP\|Closed under the global context\|^make" build/status/coq.log | tail -5; true
-	@for f in prectable offlinegen onlinegen coq driver; do if [ "`head -c 2 build/status/$$f`" != "ok" ]; then echo "make all: step $$f failed (build/status/$$f)"; fail=1; fi; done; test -z "$$fail"
+	@for f in prectable offlinegen onlinegen denseonlinegen coq driver; do if [ "`head -c 2 build/status/$$f`" != "ok" ]; then echo "make all: step $$f failed (build/status/$$f)"; fail=1; fi; done; test -z "$$fail"
 
 coq/Makefile.coq: coq/_CoqProject
 	cd coq && coq_makefile -f _CoqProject -o Makefile.coq
@@ -30,6 +30,7 @@ gen:
 	@($(MAKE) -s prectable > build/status/prectable.log 2>&1 && echo ok > build/status/prectable) || (tail -20 build/status/prectable.log > build/status/prectable; true)
 	@($(MAKE) -s offlinegen > build/status/offlinegen.log 2>&1 && echo ok > build/status/offlinegen) || (tail -20 build/status/offlinegen.log > build/status/offlinegen; true)
 	@($(MAKE) -s onlinegen > build/status/onlinegen.log 2>&1 && echo ok > build/status/onlinegen) || (tail -20 build/status/onlinegen.log > build/status/onlinegen; true)
+	@($(MAKE) -s denseonlinegen > build/status/denseonlinegen.log 2>&1 && echo ok > build/status/denseonlinegen) || (tail -20 build/status/denseonlinegen.log > build/status/denseonlinegen; true)
 
 # the precedence table of the parser model is regenerated from rtamt's generated ANTLR parser on every build
 prectable:
@@ -61,6 +62,23 @@ offlinegen-check: coq
 # 6 semantic mutations + 3 harmless rewrites of a scratch copy of the visitor: translator verdict / first lemma that fails
 offlinegen-mutants: coq
 	python3 tools/offlinegen_mutants.py
+
+# the dense-time online operation classes are re-translated from the Python sources on every build (fail-closed: an unsupported construct,
+# a new / removed class file or method, a changed pinned (hand-modelled) class or function stops the translator: C05 is then reported as
+# no longer shown); DenseOnlineGenCorrect.v re-proves, against the new text, that every generated update equals the hand model of its class
+denseonlinegen:
+	@mkdir -p build
+	python3 tools/py2coq_denseonline.py $(REPO) build/DenseOnlineGen.v.new
+	@cmp -s build/DenseOnlineGen.v.new coq/theories/DenseOnlineGen.v || cp build/DenseOnlineGen.v.new coq/theories/DenseOnlineGen.v
+
+# class-level differential check of the generated definitions against the Python classes (not part of `all`: ~2 min of vm_compute input)
+denseonlinegen-check: coq
+	PYTHONDONTWRITEBYTECODE=1 PYTHONPATH=$(REPO) /venv/bin/python harness/denseonlinegen_check.py build/DenseOnlineGenCases.v
+	cd coq && timeout 1800 coqc -Q theories RV ../build/DenseOnlineGenCases.v
+
+# 8 semantic mutations + 3 harmless rewrites of scratch copies of the class files: translator verdict / first lemma that fails
+denseonlinegen-mutants: coq
+	python3 tools/denseonlinegen_mutants.py
 
 coq: coq/Makefile.coq
 	cd coq && timeout $(COQ_TIMEOUT) $(MAKE) -k -f Makefile.coq -j$(J)
